@@ -248,7 +248,7 @@ def analyze(kit):
                                      dict(cfg=label, op="illegal-effect"),
                                      dict(m, seed=kit.seed, last=last, stay=stay, reward=float(ts2.reward), untouched=untouched, next=describe(s2)))
 
-    # ---- reset on a user-written Generator whose agents do not start at (0,0) (latent: outside the shipped configs)
+    # ---- reset on a user-written Generator whose agents do not start at (0,0) (was a defect: mask computed for (0,0); fixed in /repo)
     from jumanji.environments.routing.cleaner.generator import Generator
     import jumanji.environments as E
 
@@ -312,12 +312,11 @@ def analyze(kit):
                              dict(cfg=m["cfg"], op="checker-" + names[i]), dict(m, kind=kind, seed=kit.seed))
         elif kind == "latent-reset-mask":
             res["C04"].count("custom-generator-resets-probed")
+            res["C04"].evaluations += 1
+            res["C04"].distinct.add(("custom-generator-reset",) + cid)
             if got[0] == 1 and got[1] != 1:
-                res["C04"].count("latent:reset-mask-ignores-generator-positions")
-                note = ("LATENT (not a shipped configuration): Cleaner.reset computes the mask for agents at (0,0), not at the custom "
-                        "generator's agents_locations; example " + str(m["state"]))
-                if len(res["C04"].notes) < 1:
-                    res["C04"].notes.append(note)
+                kit.fail(["C04"], "Cleaner.reset: the reset mask is not the legal-move table at the generator's agent locations (custom Generator)",
+                         dict(cfg=m["cfg"], op="reset-mask-custom-generator"), dict(m, seed=kit.seed))
         elif kind in ("conn", "mazeconn"):
             res["C10"].evaluations += 1
             res["C10"].distinct.add((kind,) + cid)
